@@ -309,10 +309,16 @@ def identifiers_harness(service_kind: str):
                 fr.poison.add(n)
 
         def inv(I2: Interp, fr: Frame) -> list[tuple[str, Any]]:
+            eff_end = z3.If(z3.And(z3.BoolVal(service_kind == "sa"), end.t > 0x7F), 0x7F, end.t)
+            if I2.ghost["__loop_phase"] == "init":
+                # completeness: the loop is going to visit every identifier of the requested
+                # range (capped at 0x7F for SecurityAccess) with every sub-function
+                return [("visits-every-identifier-of-the-requested-range-x-sub-functions",
+                         I2.ghost["__loop_len"] == z3.If(
+                             eff_end >= start.t, (eff_end - start.t + 1) * nsub, 0))]
             if I2.ghost["__loop_phase"] != "preserved":
                 return []
             k = models.as_int(I2, fr.env["__k0"]) - 1  # index of the iteration just done
-            eff_end = z3.If(z3.And(z3.BoolVal(service_kind == "sa"), end.t > 0x7F), 0x7F, end.t)
             did = start.t + k / nsub
             sub = [1, 2, 3][0] if nsub == 1 else None
             probes = I2.ghost["probes"]
@@ -396,16 +402,133 @@ def build_units(tier: str) -> list[Unit]:
             Unit("identifiers/perform_scan/SecurityAccess", identifiers_harness("sa")),
             Unit("identifiers/perform_scan/RoutineControl", identifiers_harness("rc")),
             Unit("identifiers/perform_scan/ReadDataByIdentifier", identifiers_harness("rdbi")),
-            Unit("helpers/suggests_not_supported", helpers_harness)]
+            Unit("helpers/suggests_not_supported", helpers_harness),
+            # the skip option is parsed by utils.unravel_2d: bounded stand-in shared with C20
+            Unit("ranges/skip-option-parsing", _ranges_unit(tier),
+                 bounded="exhaustive enumeration of a stated grammar of range expressions "
+                         "(see C20)")]
+
+
+def _ranges_unit(tier: str) -> Any:
+    from . import c20
+    return c20.standin_unit(tier, 0)
+
+
+PROFILES = ["absent", "absent-in-session", "answers-any-length", "needs-3-bytes",
+            "needs-5-bytes", "silent", "imloif-then-answer", "negative-other"]
+
+
+def _services_script(seed: int) -> dict[int, str]:
+    import random
+    rnd = random.Random(seed)
+    return {sid: rnd.choice(PROFILES) for sid in range(256)}
+
+
+def native_services(seed: int) -> tuple[bool, str]:
+    """The real ServicesScanner.perform_scan against a scripted ECU whose answer depends on the
+    service id and the probe length; expectation written from the statement."""
+    import asyncio
+    import logging
+    logging.disable(logging.CRITICAL)
+    services, identifiers, S, X = mods()
+    from gallia.services.uds.core.constants import UDSErrorCodes as E
+    table = _services_script(seed)
+    probes: list[bytes] = []
+
+    class Ecu:
+        max_retry = 0
+
+        async def send_raw(self, pdu: bytes, config: Any = None) -> Any:
+            probes.append(pdu)
+            sid, n, prof = pdu[0], len(pdu) - 1, table[pdu[0]]
+            if prof == "absent":
+                return S.NegativeResponse(sid, E.serviceNotSupported)
+            if prof == "absent-in-session":
+                return S.NegativeResponse(sid, E.serviceNotSupportedInActiveSession)
+            if prof == "silent" or (prof == "needs-3-bytes" and n < 3) or \
+                    (prof == "needs-5-bytes" and n < 5):
+                raise TimeoutError
+            if prof == "imloif-then-answer" and n < 3:
+                return S.NegativeResponse(sid, E.incorrectMessageLengthOrInvalidFormat)
+            if prof == "negative-other":
+                return S.NegativeResponse(sid, E.conditionsNotCorrect)
+            return S.RawPositiveResponse(bytes([sid | 0x40, 0]))
+    want = {sid for sid, prof in table.items() if not sid & 0x40 and prof in (
+        "answers-any-length", "needs-3-bytes", "needs-5-bytes", "imloif-then-answer",
+        "negative-other")}
+    cfg = services.ServicesScannerConfig(target="tcp-lines://127.0.0.1:1", db=None)
+    sc = services.ServicesScanner(cfg)
+    sc.ecu = Ecu()  # type: ignore[assignment]
+    res, clean = asyncio.run(sc.perform_scan())
+    got = set(res)
+    if got != want:
+        miss, extra = sorted(want - got), sorted(got - want)
+        return True, (f"scripted ECU (seed {seed}): reported-but-unsupported {extra[:5]}, "
+                      f"supported-but-not-reported {[(hex(s), table[s]) for s in miss[:5]]}")
+    once = all(sum(1 for p in probes if p[0] == sid and len(p) == 2) <= 1 for sid in range(256))
+    return (not once), "every reported id is supported and every supported id is reported"
+
+
+def native_identifiers(kind: str, start: int, end: int) -> tuple[bool, str]:
+    import asyncio
+    import logging
+    logging.disable(logging.CRITICAL)
+    services, identifiers, S, X = mods()
+    svc = {"SecurityAccess": 0x27, "RoutineControl": 0x31, "ReadDataByIdentifier": 0x22}[kind]
+    probes: list[bytes] = []
+
+    class Ecu:
+        async def send_raw(self, pdu: bytes, config: Any = None) -> Any:
+            probes.append(pdu)
+            from gallia.services.uds.core.constants import UDSErrorCodes as E
+            return S.NegativeResponse(pdu[0], E.requestOutOfRange)
+    cfg = identifiers.ScanIdentifiersConfig(target="tcp-lines://127.0.0.1:1", db=None,
+                                            service=svc, start=start, end=end)
+    sc = identifiers.ScanIdentifiers(cfg)
+    sc.ecu = Ecu()  # type: ignore[assignment]
+    asyncio.run(sc.perform_scan())
+    eff_end = min(end, 0x7F) if svc == 0x27 else end
+    if svc == 0x27:
+        got = sorted({p[1] for p in probes})
+    elif svc == 0x31:
+        got = sorted({p[2] * 256 + p[3] for p in probes})
+    else:
+        got = sorted({p[1] * 256 + p[2] for p in probes})
+    want = list(range(start, eff_end + 1))
+    if got != want:
+        return True, (f"{kind} scan start={start:#x} end={end:#x}: probed identifiers "
+                      f"{[hex(x) for x in got[:4]]}..{[hex(x) for x in got[-2:]]} ({len(got)}), "
+                      f"requested range has {len(want)} (up to {eff_end:#x})")
+    return False, f"{kind} scan {start:#x}..{end:#x}: every identifier of the range was probed"
 
 
 def native_replay(unit: str, obligation: str, model: dict) -> tuple[bool, str]:
-    return False, ("C10 obligations quantify over an abstract answer oracle; a replay needs a "
-                   "scripted ECU (see the obligation name for the iteration property that failed)")
+    if unit.startswith("services/perform_scan"):
+        for seed in range(int(model.get("seed", 0)), int(model.get("seed", 0)) + 6):
+            bad, msg = native_services(seed)
+            if bad:
+                return bad, msg
+        return False, msg
+    if unit.startswith("identifiers/perform_scan/"):
+        kind = unit.split("/")[-1]
+        cands = []
+        if "start" in model and "end" in model and 0 <= int(model["end"]) - int(model["start"]) < 5000:
+            cands.append((int(model["start"]), int(model["end"])))
+        cands += [(0, 0x10), (0x70, 0x7F), (0, 0x80), (0x60, 0x100), (0, 0x1F0), (0x7F, 0x7F)]
+        msg = ""
+        for st, en in cands:
+            bad, msg = native_identifiers(kind, st, en)
+            if bad:
+                return bad, msg
+        return False, msg
+    if unit.startswith("ranges/"):
+        from . import c20
+        return c20.native_replay(unit, obligation, model)
+    return False, "no native scenario for this obligation"
 
 
 def native_search(unit: str, obligation: str, seed: int) -> dict | None:
-    return None
+    return {"seed": seed}
 
 
 TRUSTED = [
